@@ -30,6 +30,8 @@ pub struct TaskInfo {
     pub eff: CallTimeouts,
     pub phase: Phase,
     pub started_at: Option<tokio::time::Instant>,
+    /// real (std) instant at which the get() call was created: the recycle of this hand-out cannot be older
+    pub std_created: std::time::Instant,
     pub call_started_at: Option<tokio::time::Instant>,
     pub last_fail: Option<(CallKind, Outcome)>,
     pub script: VecDeque<Script>,
